@@ -190,7 +190,7 @@ def build():
         'ChangeField.simulate', module=CHGF, serves=['C12'],
         params={'self': K.Ref('ChangeField'), 'simulation': K.Ref('Simulation')},
         raises={'SimulationFailure': True},
-        modifies=['FieldSignature.field_type', 'FieldSignature.field_attrs'],
+        modifies=['FieldSignature.field_type', 'FieldSignature.field_attrs', 'FieldSignature.related_model'],
         abstract={'field_type_changed, old_field, new_field = self._get_field_type_change(':
                   ['field_type_changed = type_changed(self, field_sig)'],
                   },
